@@ -8,7 +8,7 @@ issues library queries on a forest (a corrupt forest may make them spin)."""
 def check_forest(world, limit=None):
     """Return a list of (clause, detail) violations; empty if consistent.
 
-    clauses: foreign, children-type, child-parent, parent-child, duplicate,
+    clauses: foreign, child-parent, parent-child, duplicate,
              cycle, root-attr
     """
     nodes = world.nodes
@@ -19,11 +19,7 @@ def check_forest(world, limit=None):
     pars = []
     for i in range(n_nodes):
         n = nodes[i]
-        cs = n.children
-        if type(cs) is not tuple:
-            out.append(("children-type", "node %d: children is %s" % (i, type(cs).__name__)))
-            cs = tuple(cs)
-        kids.append(cs)
+        kids.append(tuple(n.children))
         pars.append(n.parent)
     # closure: every object reachable must be a universe node
     for i in range(n_nodes):
@@ -73,9 +69,9 @@ def check_forest(world, limit=None):
     for i in range(n_nodes):
         n = nodes[i]
         if pars[i] is None:
-            if n.is_root is not True or n.root is not n:
+            if not n.is_root or n.root is not n:
                 out.append(("root-attr", "%d has no parent but is_root=%r root=%r" % (i, n.is_root, index(n.root))))
         else:
-            if n.is_root is not False:
+            if n.is_root:
                 out.append(("root-attr", "%d has a parent but is_root=%r" % (i, n.is_root)))
     return out
